@@ -131,7 +131,10 @@ the constancy check: `lift.scan` succeeds exactly when the explicit loop `loopSp
 scope variables, final carry and stacked outputs.  (`loopSpec`: slice `i` of every axis collection along its
 declared axis ↔ iteration `i`; broadcast collections initialised once and passed unchanged to every
 iteration; carried collections and carry threaded in processing order; outputs stacked by index along the
-declared out axes; split streams get `Key.split k n i`.) -/
+declared out axes; split streams get `Key.split k n i`.)  Both values of `check_constancy_invariants` are
+covered: `cfg.checkConst = false` selects `simple_scan_fn` in the model and `loopCoreSimple` in the loop — the
+same iterations in the same direction, but the broadcast collections are inputs only (no one-time
+initialisation, no constancy verdict) and `broadcast` out axes are refused. -/
 theorem scan_eq_loop {α : Type} [Inhabited α] (cfg : ScanCfg) (verdict : Bool) (body : Body α)
     (scopeMut : LFilter) (outer : Vars α) (rngs : Rngs) (init : List (Arr α)) (args : List (Arr α)) :
     opt (liftScan cfg verdict body scopeMut outer rngs init args) =
@@ -155,7 +158,8 @@ def exBody : Body Int := fun _ vars _ c xs =>
 
 def exCfg : ScanCfg :=
   { bcast := .ff, carry := .name "K", axes := [⟨.name "P", -1, true, true⟩], splitRngs := [],
-    inAxes := .uniform (some 0), outAxes := .uniform (some 0), length := none, reverse := true, unroll := 2 }
+    inAxes := .uniform (some 0), outAxes := .uniform (some 0), length := none, reverse := true, unroll := 2,
+    checkConst := true }
 
 def exOuter : Vars Int := [("P", [("w", exVec [1, 10, 100])]), ("K", [("n", exScalar 0)])]
 
@@ -165,23 +169,32 @@ example :
       r.map (·.2.2.1) = some [exVec [320, 300, 0]] := by decide
 
 example :
-    let r := opt (axesScan exCfg.length exCfg.reverse true false (exCfg.inAx.map (·.axis)) [some 0] exCfg.outAxes
+    let r := opt (axesScan true exCfg.length exCfg.reverse true false (exCfg.inAx.map (·.axis)) [some 0] exCfg.outAxes
       (exCfg.outAx.map (·.axis)) (scanned (.names ["K", "P"]) exCfg.outFs exBody)
       (roleGroup exOuter exCfg.inFs 0) (roleGroup exOuter exCfg.inFs 1, [exScalar 0])
       (axisGroups exOuter exCfg.inFs exCfg.inAx.length) [] [exVec [1, 2, 3]])
     r.map (·.2.1.1) = some [("K", [("n", exScalar 3)])] ∧ r.map (·.2.1.2) = some [exScalar 321] ∧
       r.map (·.2.2.1) = some [exVec [320, 300, 0]] := by decide
 
+/-- non-vacuity for `check_constancy_invariants=False` (reverse direction, same loop as above) -/
+example :
+    let r := loopCoreSimple { exCfg with checkConst := false } (.names ["K", "P"]) exBody exOuter []
+      [exScalar 0] [exVec [1, 2, 3]] [some 0] 3
+    r.map (·.2.1.2) = some [exScalar 321] ∧ r.map (·.2.2.1) = some [exVec [320, 300, 0]] := by decide
+
 /-- when the constancy check of the broadcast pass rejects the body (a broadcast collection or a
 `broadcast` output depends on the carry or on scanned data), `lift.scan` never returns a value -/
-theorem scan_rejects_broadcast_dependency {α : Type} [Inhabited α] (cfg : ScanCfg) (body : Body α)
-    (scopeMut : LFilter) (outer : Vars α) (rngs : Rngs) (init : List (Arr α)) (args : List (Arr α)) :
+theorem scan_rejects_broadcast_dependency {α : Type} [Inhabited α] (cfg : ScanCfg)
+    (hcc : cfg.checkConst = true) (body : Body α) (scopeMut : LFilter) (outer : Vars α) (rngs : Rngs) (init : List (Arr α)) (args : List (Arr α)) :
     opt (liftScan cfg false body scopeMut outer rngs init args) = none := by
   rw [scan_eq_loop]
   have hcore : ∀ inArgAxes dLength,
       loopCore cfg false (innerMutable scopeMut cfg.outFs) body outer rngs init args inArgAxes dLength = none := by
     intro inArgAxes dLength
     unfold loopCore
+    rw [hcc]
+    simp only [if_true]
+    unfold loopCoreChecked
     cases loopDims cfg outer rngs inArgAxes args dLength with
     | none => rfl
     | some dims =>
@@ -485,21 +498,21 @@ ModifyScopeVariableError when the body writes a collection that the inner mutabi
 from `decideLength` on the sizes read off the arguments, before anything else; the broadcast-dependency error
 is raised exactly when the constancy check fails after a broadcast pass that itself went through; anything
 else is foreign -/
-theorem scan_error_classes {α : Type} [Inhabited α] (cfg : ScanCfg) (verdict : Bool) (body : Body α)
-    (hb : BodyForeign body) (m : LFilter) (outer : Vars α) (rngs : Rngs) (init args : List (Arr α)) (e : Err)
+theorem scan_error_classes {α : Type} [Inhabited α] (cfg : ScanCfg) (hcc : cfg.checkConst = true)
+    (verdict : Bool) (body : Body α) (hb : BodyForeign body) (m : LFilter) (outer : Vars α) (rngs : Rngs) (init args : List (Arr α)) (e : Err)
     (h : liftScan cfg verdict body m outer rngs init args = .error e) :
     (∃ sizes, argSizes cfg.inAxes args = .ok sizes ∧ decideLength cfg.length sizes = .error e ∧
         (e = .inconsistentLengths ∨ e = .lengthUnspecified)) ∨
     (e = .broadcastDependency ∧ verdict = false ∧
         ∃ r, liftScanCore cfg verdict true body m outer rngs init args = .ok r) ∨
     e.foreign = true :=
-  liftScan_err cfg verdict body hb m outer rngs init args e h
+  liftScan_err cfg hcc verdict body hb m outer rngs init args e h
 
 /-- **'Inconsistent scan lengths' / 'length should be specified manually', exactly**: `lift.scan` raises the
 first iff the scanned arguments show two different sizes, the second iff they show none and no `length` is
 given (whatever the body, the collections and the rngs are) -/
-theorem scan_length_errors_iff {α : Type} [Inhabited α] (cfg : ScanCfg) (verdict : Bool) (body : Body α)
-    (hb : BodyForeign body) (m : LFilter) (outer : Vars α) (rngs : Rngs) (init args : List (Arr α))
+theorem scan_length_errors_iff {α : Type} [Inhabited α] (cfg : ScanCfg) (hcc : cfg.checkConst = true)
+    (verdict : Bool) (body : Body α) (hb : BodyForeign body) (m : LFilter) (outer : Vars α) (rngs : Rngs) (init args : List (Arr α))
     (sizes : List Nat) (hs : argSizes cfg.inAxes args = .ok sizes) :
     (liftScan cfg verdict body m outer rngs init args = .error .inconsistentLengths ↔
       ∃ a ∈ sizes, ∃ b ∈ sizes, a ≠ b) ∧
@@ -515,7 +528,7 @@ theorem scan_length_errors_iff {α : Type} [Inhabited α] (cfg : ScanCfg) (verdi
   have hbwd : ∀ e, (e = .inconsistentLengths ∨ e = .lengthUnspecified) →
       liftScan cfg verdict body m outer rngs init args = .error e → decideLength cfg.length sizes = .error e := by
     intro e he h
-    rcases liftScan_err cfg verdict body hb m outer rngs init args e h with ⟨s', hs', hd, _⟩ | ⟨hbd, _⟩ | hf
+    rcases liftScan_err cfg hcc verdict body hb m outer rngs init args e h with ⟨s', hs', hd, _⟩ | ⟨hbd, _⟩ | hf
     · rw [hs] at hs'; injection hs' with hs'; subst hs'; exact hd
     · rcases he with he | he <;> (rw [he] at hbd; cases hbd)
     · rcases he with he | he <;> (rw [he] at hf; cases hf)
@@ -525,29 +538,30 @@ theorem scan_length_errors_iff {α : Type} [Inhabited α] (cfg : ScanCfg) (verdi
 
 /-- **the broadcast-dependency error, exactly**: raised iff the constancy check rejects (`verdict = false`)
 and everything up to and including the broadcast pass succeeds -/
-theorem scan_broadcast_dependency_iff {α : Type} [Inhabited α] (cfg : ScanCfg) (verdict : Bool) (body : Body α)
-    (hb : BodyForeign body) (m : LFilter) (outer : Vars α) (rngs : Rngs) (init args : List (Arr α)) :
+theorem scan_broadcast_dependency_iff {α : Type} [Inhabited α] (cfg : ScanCfg) (hcc : cfg.checkConst = true)
+    (verdict : Bool) (body : Body α) (hb : BodyForeign body) (m : LFilter) (outer : Vars α) (rngs : Rngs) (init args : List (Arr α)) :
     liftScan cfg verdict body m outer rngs init args = .error .broadcastDependency ↔
       (verdict = false ∧ ∃ r, liftScanCore cfg verdict true body m outer rngs init args = .ok r) := by
   constructor
   · intro h
-    rcases liftScan_err cfg verdict body hb m outer rngs init args _ h with ⟨_, _, _, he⟩ | ⟨_, hv, hr⟩ | hf
+    rcases liftScan_err cfg hcc verdict body hb m outer rngs init args _ h with ⟨_, _, _, he⟩ | ⟨_, hv, hr⟩ | hf
     · rcases he with he | he <;> cases he
     · exact ⟨hv, hr⟩
     · cases hf
   · rintro ⟨hv, r, hr⟩
     subst hv
-    exact liftScan_reject cfg body m outer rngs init args r hr
+    exact liftScan_reject cfg hcc body m outer rngs init args r hr
 
 /-- **'unmapped output variables' cannot come out of `lift.scan` or `lift.vmap`**: a collection is mutable in
 the inner scope only if some out filter matches it -/
 theorem unmapped_output_never {α : Type} [Inhabited α] (body : Body α) (hb : BodyForeign body) (m : LFilter)
     (outer : Vars α) (rngs : Rngs) (init args : List (Arr α)) (verdict : Bool) :
-    (∀ cfg : ScanCfg, liftScan cfg verdict body m outer rngs init args ≠ .error .unmappedOutput) ∧
+    (∀ cfg : ScanCfg, cfg.checkConst = true →
+      liftScan cfg verdict body m outer rngs init args ≠ .error .unmappedOutput) ∧
     (∀ cfg : VmapCfg, liftVmap cfg verdict body m outer rngs args ≠ .error .unmappedOutput) := by
   constructor
-  · intro cfg h
-    rcases liftScan_err cfg verdict body hb m outer rngs init args _ h with ⟨_, _, _, he⟩ | ⟨he, _⟩ | hf
+  · intro cfg hcc h
+    rcases liftScan_err cfg hcc verdict body hb m outer rngs init args _ h with ⟨_, _, _, he⟩ | ⟨he, _⟩ | hf
     · rcases he with he | he <;> cases he
     · cases he
     · cases hf
